@@ -228,9 +228,21 @@ def files_matchers(depth, force_max):
                                     'm': {'k': 'sel', 'fm': inner, 'm': m}}, only_dirs, sub),
         st.builds(lambda inner, q: {'k': 'sel', 'fm': {'k': 'type', 'v': 'file'},
                                     'm': {'k': q, 'fm': inner}}, only_files, st.sampled_from(['every', 'any'])))
+    # one model, several operands: an operand that looks at every file first, then one that derives a pruned (or
+    # selected) model from the same model - what the first one saw must not be what the second one gets
+    whole = st.one_of(leaves[1], leaves[2], st.just({'k': 'empty'}),
+                      st.just({'k': 'every', 'fm': {'k': 'const', 'v': True}}),
+                      st.just({'k': 'not', 'x': {'k': 'any', 'fm': {'k': 'const', 'v': False}}}))
+    derived = st.one_of(
+        st.builds(lambda f, m: {'k': 'prune', 'fm': f, 'm': m},
+                  st.deferred(lambda: prune_matchers(depth, force_max)), st.one_of(leaves[1], leaves[2], sub)),
+        st.builds(lambda f, m: {'k': 'sel', 'fm': f, 'm': m}, fm, st.one_of(leaves[1], leaves[2])))
+    shared_model = st.builds(lambda op, a, b, c: {'k': op, 'xs': [a, b] + ([c] if c is not None else [])},
+                             st.sampled_from(['and', 'or']), whole, derived, st.none() | derived)
     return st.one_of(
         *leaves[1:],
         nested_sel,
+        shared_model,
         st.builds(lambda f, m: {'k': 'sel', 'fm': f, 'm': m}, fm, sub),
         st.builds(lambda f, m: {'k': 'sel', 'fm': f, 'm': m}, fm, sub),
         st.builds(lambda f, m: {'k': 'sel', 'fm': f, 'm': m}, fm, sub),
